@@ -97,6 +97,18 @@ Outcome run_case(const Case &c) {
     case 'w': {
       size_t fr = S - model.size();
       size_t len = o.mode == 1 ? (fr ? fr - 1 : 0) : o.mode == 2 ? fr : o.mode == 3 ? fr + 1 : o.mode == 4 ? S : o.mode == 5 ? S + 1 : o.mode == 6 ? 0 : (size_t)(o.n < 0 ? 0 : o.n);
+      if (o.mode == 7) {
+        // lengths at the top of psize (a negative error value passed on as a length): "a write of more than the free space appends nothing
+        // and returns 0" for every length - also one for which used + len wraps around.  The data pointer is a small valid block: a
+        // correct write never looks at it
+        static const size_t tops[] = {(size_t)-1, (size_t)-2, (size_t)-3, ((size_t)1 << 63), ((size_t)1 << 63) + 5, (size_t)-1 - 4096, ((size_t)1 << 32) + 7};
+        size_t hl = tops[(size_t)(o.n < 0 ? 0 : o.n) % 7]; unsigned char small[8] = {1, 2, 3, 4, 5, 6, 7, 8};
+        pssize hr = p_shm_buffer_write(H(o.h), small, hl, NULL);
+        if (hr != 0) fail("write-refuse", "write of " + std::to_string(hl) + " bytes (top of the size type) with " + std::to_string(fr) + " free returned " + std::to_string(hr) + " instead of 0");
+        boundary = true; vl::stats().klass(model.empty() ? "write_huge_length_on_empty_buffer" : "write_huge_length_on_non_empty_buffer");
+        if (out.verdict.empty()) spaces(H(o.h), "after a refused write of a huge length");
+        break;
+      }
       unsigned char *buf = (unsigned char *)malloc(len ? len : 1);
       for (size_t i = 0; i < len; i++) buf[i] = (unsigned char)(1 + (produced + i) % 251);
       pssize r = p_shm_buffer_write(H(o.h), buf, len, NULL);
@@ -164,7 +176,7 @@ rc::Gen<Case> genCase() {
   using namespace rc;
   auto cap = gen::weightedOneOf<int>({{6, gen::element(1, 2, 3, 7, 8, 64, 1024, 4079, 8175)}, {2, rng(1, 5001)}});
   return gen::mapcat(cap, [](int S) {
-    auto w = gen::map(gen::tuple(rng(0, 5), gen::weightedElement<int>({{5, 0}, {2, 1}, {3, 2}, {2, 3}, {1, 4}, {1, 5}, {1, 6}}), gen::weightedOneOf<int>({{3, rng(1, 4)}, {3, rng(1, std::max(2, S / 2 + 2))}, {1, rng(1, S + 3)}})), [](const std::tuple<int, int, int> &t) { Op o; o.kind = 'w'; o.h = std::get<0>(t); o.mode = std::get<1>(t); o.n = std::get<2>(t); return o; });
+    auto w = gen::map(gen::tuple(rng(0, 5), gen::weightedElement<int>({{5, 0}, {2, 1}, {3, 2}, {2, 3}, {1, 4}, {1, 5}, {1, 6}, {1, 7}}), gen::weightedOneOf<int>({{3, rng(1, 4)}, {3, rng(1, std::max(2, S / 2 + 2))}, {1, rng(1, S + 3)}})), [](const std::tuple<int, int, int> &t) { Op o; o.kind = 'w'; o.h = std::get<0>(t); o.mode = std::get<1>(t); o.n = std::get<2>(t); return o; });
     auto r = gen::map(gen::tuple(rng(0, 5), gen::weightedElement<int>({{5, 0}, {2, 1}, {2, 2}, {2, 3}, {1, 4}, {1, 6}}), gen::weightedOneOf<int>({{3, rng(1, 4)}, {3, rng(1, std::max(2, S / 2 + 2))}, {1, rng(1, S + 3)}})), [](const std::tuple<int, int, int> &t) { Op o; o.kind = 'r'; o.h = std::get<0>(t); o.mode = std::get<1>(t); o.n = std::get<2>(t); return o; });
     auto op = gen::map(rng(0, 4), [](int m) { Op o; o.kind = 'o'; o.mode = m; return o; });
     auto simple = [](char k) { return gen::map(rng(0, 5), [k](int h) { Op o; o.kind = k; o.h = h; return o; }); };
